@@ -1,1 +1,64 @@
 // Kani contract harnesses for /repo/parquet/src/encodings/encoding/byte_stream_split_encoder.rs (child module: sees private items via super::)
+//
+// BYTE_STREAM_SPLIT layout (parquet-format Encodings.md): for n values of T bytes, stream j (0 <= j < T) holds byte j of
+// every value, streams are concatenated: encoded[i + j*n] = plain[i*T + j]. The decoder file carries the inverse
+// contract with the same formula; the composition of the two is the round trip.
+use super::*;
+
+// Contract (C05): split_streams_const::<T>(src, dst) with len(src) = len(dst) = N*T: for all i < N, j < T:
+// dst[i + j*N] = src[i*T + j]. (i, j) -> i + j*N is a bijection onto [0, N*T), so this fixes every byte of dst.
+// split_streams_variable(src, dst, T) produces the identical output.
+macro_rules! split_const_unit {
+    ($name:ident, $t:expr, $n:expr, $unw:expr) => {
+        #[kani::proof]
+        #[kani::unwind($unw)]
+        fn $name() {
+            let src: [u8; $t * $n] = kani::any();
+            let mut dst = [0u8; $t * $n];
+            split_streams_const::<$t>(&src, &mut dst);
+            let (i, j): (usize, usize) = (kani::any(), kani::any());
+            kani::assume(i < $n && j < $t);
+            assert!(dst[i + j * $n] == src[i * $t + j]);
+            let mut dst2 = [0u8; $t * $n];
+            split_streams_variable(&src, &mut dst2, $t);
+            assert!(dst2[i + j * $n] == dst[i + j * $n]);          // (i, j) ranges over every byte
+            kani::cover!(i == $n - 1 && j == $t - 1 && src[i * $t + j] == 0x5A);
+        }
+    };
+}
+// @unit name=split_streams_const4_n3 props=C05 kind=bounded bound=3_values_of_4_bytes fns=split_streams_const,split_streams_variable timeout=300
+split_const_unit!(split_streams_const4_n3, 4, 3, 10);
+// @unit name=split_streams_const8_n3 props=C05 kind=bounded bound=3_values_of_8_bytes fns=split_streams_const,split_streams_variable timeout=300
+split_const_unit!(split_streams_const8_n3, 8, 3, 10);
+// @unit name=split_streams_const4_n1 props=C05 kind=bounded bound=1_value_of_4_bytes fns=split_streams_const,split_streams_variable timeout=300 tier=thorough
+split_const_unit!(split_streams_const4_n1, 4, 1, 10);
+// @unit name=split_streams_const4_n8 props=C05 kind=bounded bound=8_values_of_4_bytes fns=split_streams_const,split_streams_variable tier=thorough timeout=900
+split_const_unit!(split_streams_const4_n8, 4, 8, 10);
+// @unit name=split_streams_const8_n8 props=C05 kind=bounded bound=8_values_of_8_bytes fns=split_streams_const,split_streams_variable tier=thorough timeout=900
+split_const_unit!(split_streams_const8_n8, 8, 8, 10);
+
+// Contract (C05): split_streams_variable(src, dst, W) for FIXED_LEN_BYTE_ARRAY widths W that are not a multiple of the
+// internal block of 4 (partial last block) and for W = 16: dst[i + j*N] = src[i*W + j] for all i < N, j < W.
+macro_rules! split_var_unit {
+    ($name:ident, $w:expr, $n:expr, $unw:expr) => {
+        #[kani::proof]
+        #[kani::unwind($unw)]
+        fn $name() {
+            let src: [u8; $w * $n] = kani::any();
+            let mut dst = [0u8; $w * $n];
+            split_streams_variable(&src, &mut dst, $w);
+            let (i, j): (usize, usize) = (kani::any(), kani::any());
+            kani::assume(i < $n && j < $w);
+            assert!(dst[i + j * $n] == src[i * $w + j]);
+            kani::cover!(i == $n - 1 && j == $w - 1 && src[i * $w + j] == 0x5A);
+        }
+    };
+}
+// @unit name=split_streams_variable_w5_n3 props=C05 kind=bounded bound=3_values_of_5_bytes fns=split_streams_variable timeout=300
+split_var_unit!(split_streams_variable_w5_n3, 5, 3, 8);
+// @unit name=split_streams_variable_w2_n3 props=C05 kind=bounded bound=3_values_of_2_bytes fns=split_streams_variable timeout=300 tier=thorough
+split_var_unit!(split_streams_variable_w2_n3, 2, 3, 8);
+// @unit name=split_streams_variable_w16_n2 props=C05 kind=bounded bound=2_values_of_16_bytes fns=split_streams_variable timeout=300 tier=thorough
+split_var_unit!(split_streams_variable_w16_n2, 16, 2, 8);
+// @unit name=split_streams_variable_w7_n8 props=C05 kind=bounded bound=8_values_of_7_bytes fns=split_streams_variable tier=thorough timeout=900
+split_var_unit!(split_streams_variable_w7_n8, 7, 8, 10);
